@@ -73,7 +73,7 @@ Definition monitor_total (c : case) : bool :=
   match toks with Some ts => Z.of_nat (List.length ts) <=? len + 2 | None => false end &&
   (leak =? 0) &&
   (pulled <=? len + 4) && (cursor <? pulled) &&
-  (ns <=? 2000000000 + 50000 * len).
+  (ns <=? 6000000000 + 50000 * len).   (* generous: the proved bound is the step count; this only guards against hangs on a loaded machine *)
 
 (* C14 on the implementation:
    * a program derived from the grammar is accepted with exactly its tree, and the real lexer
